@@ -92,6 +92,78 @@ func codeOf[T signal.SignalTypes](v T) int64 {
 	return intern(3, u)
 }
 
+// codeAs is the value code of the int64 x converted (by Go's conversion rules, as the harness does before it
+// hands a value to the library) to the element type named ty.
+func codeAs(ty string, x int64) int64 {
+	switch KindOf(ty) {
+	case "int8":
+		return codeOf(int8(x))
+	case "int16":
+		return codeOf(int16(x))
+	case "int32":
+		return codeOf(int32(x))
+	case "int64":
+		return codeOf(int64(x))
+	case "int":
+		return codeOf(int(x))
+	case "uint8":
+		return codeOf(uint8(x))
+	case "uint16":
+		return codeOf(uint16(x))
+	case "uint32":
+		return codeOf(uint32(x))
+	case "uint64":
+		return codeOf(uint64(x))
+	case "uint":
+		return codeOf(uint(x))
+	case "uintptr":
+		return codeOf(uintptr(x))
+	case "float32":
+		return codeOf(float32(x))
+	case "float64":
+		return codeOf(float64(x))
+	}
+	panic(harnessBug("codeAs: unknown type " + ty))
+}
+
+func codesAs(ty string, xs []int64) []int64 {
+	out := make([]int64, len(xs))
+	for i, x := range xs {
+		out[i] = codeAs(ty, x)
+	}
+	return out
+}
+
+func kindBits(ty string) int {
+	switch KindOf(ty) {
+	case "int8", "uint8":
+		return 8
+	case "int16", "uint16":
+		return 16
+	case "int32", "uint32", "float32":
+		return 32
+	}
+	return 64
+}
+
+// extremesFor: int64 values whose conversion to the element type ty gives the values at the ends of its range
+// (most negative, most negative + 1, -1 / all ones, largest, the sign bit alone) and values a detour through a
+// narrower or a floating-point representation would change (2^24+1, 2^53+1, 2^62+1).
+func extremesFor(ty string) []int64 {
+	b := kindBits(ty)
+	if isFloatTy(ty) {
+		return []int64{1<<24 + 1, -(1<<24 + 1), 1 << 40, -(1 << 62)}
+	}
+	out := []int64{-1 << (b - 1), -1<<(b-1) + 1, -1, 1<<(b-1) - 1, -2}
+	if b >= 32 {
+		out = append(out, 1<<24+1, -(1<<24 + 1))
+	}
+	if b == 64 {
+		out = append(out, 1<<53+1, -(1<<53 + 1), 1<<62+1)
+	}
+	return out
+}
+
 // View is a live *signal.Buffer[T] of some element type.
 type View interface {
 	Ty() string
